@@ -3,7 +3,7 @@ CONSTANTS
   Vals = {0, 16, 48}
   Ramps = {16}
   Jitters = {0}
-  Shapes = {"ramp", "none"}
+  Shapes = {"ramp", "none", "writable", "readable"}
   StartHv = {16}
   StartTarget = {16}
   Depth = 5
@@ -11,7 +11,7 @@ CONSTANTS
   MaxStops = 0
   MaxRamps = 0
   MaxReads = 1
-  MaxX = 2
+  MaxX = 1
 CONSTRAINT Bound
 ACTION_CONSTRAINT Canon
 INVARIANT Emit1
